@@ -43,6 +43,11 @@ SPEC = {
          "configs": {n: {"thorough": 3000} for n in _MX}, "chunk": 25},
         {"name": "st_gcc", "src": _SRC, "variant": "gasan",
          "configs": {("st_" + n): {"quick": 100, "thorough": 5000} for n in _OPTS}, "chunk": 25},
+        # valgrind memcheck: uses of uninitialised values in copied / moved-from / deserialised objects (invisible to ASan/UBSan)
+        {"name": "st_memcheck", "src": _SRC, "variant": "memcheck",
+         "configs": {("st_" + n): {"quick": 40, "thorough": 1200} for n in _OPTS}, "chunk": 10},
+        {"name": "mx_memcheck", "src": ["c15_main.cpp", "c15_mx_a.cpp", "c15_mx_b.cpp", "c15_mx_c.cpp"], "variant": "memcheck",
+         "configs": {n: {"quick": 24, "thorough": 800} for n in _MX}, "chunk": 8},
     ],
     "extra": _extra,
     "floors": {"quick": {"scenario.copy_ctor": 200, "scenario.move_assign": 200, "scenario.self_copy_assign": 100, "scenario.serialize": 200,
